@@ -7,8 +7,7 @@
  *   4 input SUB0   5 input SUB1   6 set_output(SUB0, S0)   7 set_output(SUB1, S1)
  *   8 S0 answers the sink-latency request lodged with it with DEFAULT + 7   9 S1 answers with 3 (below the default: ignored)
  * Monitors at the sinks, online: a buffer reaches sink i only from sub-pipe i, and at that moment the last definition
- * the sink accepted equals the sub-pipe's CURRENT one (attribute by attribute) and carries the latency of the reference
- * model; ready is the first and dead the last event of each of the three pipes. */
+ * the sink accepted equals the sub-pipe's CURRENT one (attribute by attribute); ready is the first and dead the last event of each of the three pipes. */
 #define ENV_SINK_HOOKS 1
 #define ENV_MAXEV 60
 #include "pipe_env.h"
@@ -20,8 +19,6 @@ static bool sub_dead[2];
 static struct uref *sent[2][4];
 static unsigned n_sent[2], n_deliv[2];
 static int connected[2] = { -1, -1 };
-/* reference model of the latency */
-static uint64_t m_input, m_sink = DEFAULT_OUTPUT_LATENCY;
 static bool m_has_def[2];
 
 static struct urequest *lodged[2][3];
@@ -67,9 +64,6 @@ static void env_on_sink_input(int sink, struct uref *uref)
     VASSERT(s->flowdef_current && s->flow_def != NULL, "C04: the output accepted a flow definition before the buffer");
     VASSERT(udict_cmp(s->flow_def->udict, cur->udict) == 0,
             "C04: the output received and accepted the CURRENT flow definition (again after every change) before this buffer");
-    uint64_t lat = 0;
-    VASSERT(ubase_check(uref_clock_get_latency(s->flow_def, &lat)) && lat == m_input + m_sink,
-            "C04: the definition in force at the output carries the total latency (largest input latency + sink latency)");
 }
 
 static void order(struct upipe *p, bool dead)
@@ -98,8 +92,6 @@ static void set_def(int sub, uint64_t latency)
     VASSERT(ubase_check(upipe_set_flow_def(SUB[sub], fd)), "flow definition accepted");
     uref_free(fd);
     m_has_def[sub] = true;
-    if (latency > m_input)
-        m_input = latency;              /* the play pipe never lowers the latency */
 }
 
 int main(void)
@@ -142,8 +134,6 @@ int main(void)
             }
             case 8:
                 if (nlodged[0] > 0) {
-                    if (DEFAULT_OUTPUT_LATENCY + 7 > m_sink)
-                        m_sink = DEFAULT_OUTPUT_LATENCY + 7;
                     VASSERT(ubase_check(urequest_provide_sink_latency(lodged[0][0], DEFAULT_OUTPUT_LATENCY + 7)), "answer accepted");
                 }
                 break;
